@@ -802,7 +802,9 @@ class AbsExpression(FunctionExpression):
         return "abs"
 
     def operate(self, value: NumberType) -> NumberType:
-        return np.absolute(value)
+        # The builtin keeps Python integers exact; np.absolute returns a 64 bit integer
+        # that wraps in later arithmetic (and for abs(-2**63) itself).
+        return abs(value)
 
 
 class SgnExpression(FunctionExpression):
